@@ -691,7 +691,7 @@ VMLoop:
 			// save current sp to come back to same position
 			handler.sp = vm.sp
 			// remove current error if any
-			vm.curFrame.errHandlers.err = nil
+			handler.err = nil
 			// set ip to finally's position
 			vm.ip = pos - 1
 		case OpUnary:
@@ -830,9 +830,9 @@ func (vm *VM) xOpSetupCatch() {
 		hdl := errHandlers.last()
 		hdl.catch = 0
 
-		if errHandlers.err != nil {
-			value = errHandlers.err
-			errHandlers.err = nil
+		if hdl.err != nil {
+			value = hdl.err
+			hdl.err = nil
 		}
 	}
 
@@ -857,19 +857,21 @@ func (vm *VM) xOpThrow() error {
 
 	switch op {
 	case 0: // system
+		// end of the try statement: its handler is always removed here, what
+		// was pending when its finally block was entered takes effect now.
 		errHandlers := vm.curFrame.errHandlers
-		if errHandlers.hasError() {
-			errHandlers.pop()
+		if !errHandlers.hasHandler() {
+			break
+		}
+		handler := *errHandlers.last()
+		errHandlers.pop()
+		if handler.err != nil {
 			// do not put position info to error for re-throw after finally.
-			if err := vm.throw(errHandlers.err, true); err != nil {
+			if err := vm.throw(handler.err, true); err != nil {
 				return err
 			}
-		} else if pos := errHandlers.hasReturnTo(); pos > 0 {
+		} else if pos := handler.returnTo; pos > 0 {
 			// go to OpReturn if it is set
-			handler := errHandlers.last()
-			errHandlers.pop()
-			handler.returnTo = 0
-
 			if vm.sp >= handler.sp {
 				for i := vm.sp; i >= handler.sp; i-- {
 					vm.stack[i] = nil
@@ -951,7 +953,6 @@ func (vm *VM) throw(err *RuntimeError, noTrace bool) error {
 }
 
 func (vm *VM) handleThrownError(frame *frame, err *RuntimeError) error {
-	frame.errHandlers.err = err
 	handler := frame.errHandlers.last()
 
 	// if we have catch>0 goto catch else follow finally (one of them must be set)
@@ -960,9 +961,13 @@ func (vm *VM) handleThrownError(frame *frame, err *RuntimeError) error {
 	} else if handler.finally > 0 {
 		vm.ip = handler.finally - 1
 	} else {
+		// error is thrown in the finally block of the handler, it replaces
+		// whatever was pending for the abandoned try statement.
 		frame.errHandlers.pop()
 		return vm.throw(err, false)
 	}
+	handler.err = err
+	handler.returnTo = 0
 
 	if vm.sp >= handler.sp {
 		for i := vm.sp; i >= handler.sp; i-- {
@@ -1431,15 +1436,11 @@ type errHandler struct {
 	catch    int
 	finally  int
 	returnTo int
+	err      *RuntimeError
 }
 
 type errHandlers struct {
 	handlers []errHandler
-	err      *RuntimeError
-}
-
-func (t *errHandlers) hasError() bool {
-	return t != nil && t.err != nil
 }
 
 func (t *errHandlers) pop() bool {
@@ -1478,13 +1479,6 @@ start:
 		goto start
 	}
 	return p
-}
-
-func (t *errHandlers) hasReturnTo() int {
-	if t.hasHandler() {
-		return t.handlers[len(t.handlers)-1].returnTo
-	}
-	return 0
 }
 
 type frame struct {
